@@ -64,6 +64,13 @@ func newReposWorld() (*reposWorld, error) {
 		}
 		w.keys[n] = k
 	}
+	// another key pair stored under alice's FILE NAME (an impostor, or a rotated key): the model's key identifiers name
+	// (file name, key material) pairs, the keyring handed to the implementation is keyed by the file name alone
+	k2, err := synthrepo.NewKey("alice.rsa.pub")
+	if err != nil {
+		return nil, err
+	}
+	w.keys["alice.rsa.pub#2"] = k2
 	plan := []struct{ kind, signer, transport string }{
 		{"signed", "alice.rsa.pub", "local"},
 		{"signed", "bob.rsa.pub", "local"},
@@ -73,6 +80,8 @@ func newReposWorld() (*reposWorld, error) {
 		{"signed", "alice.rsa.pub", "http-etag"},
 		{"signed", "bob.rsa.pub", "http-noetag"},
 		{"spliced", "", "local"},
+		{"signed", "alice.rsa.pub#2", "local"},
+		{"signed", "alice.rsa.pub#2", "http-etag"},
 	}
 	for i, p := range plan {
 		var arc []byte
@@ -173,7 +182,7 @@ func (w *reposWorld) run(h int, c *repoCall) error {
 	}
 	keys := map[string][]byte{}
 	for _, k := range c.Keys {
-		keys[k] = w.keys[k].Pub
+		keys[w.keys[k].Name] = w.keys[k].Pub
 	}
 	opts := []apk.IndexOption{apk.WithHTTPClient(w.srv.Client())}
 	if c.Ignore {
@@ -267,7 +276,7 @@ func reposStage(dir string, seed uint64, tier string) error {
 	defer w.close()
 	r := gal.NewRand(seed ^ 0xC04)
 	wr := &gal.Writer{Dir: dir, Require: "From Apko Require Import Corr.C04.", Type: "repos_case", Check: "check_repos", Shard: 200}
-	A, B := "alice.rsa.pub", "bob.rsa.pub"
+	A, B, A2 := "alice.rsa.pub", "bob.rsa.pub", "alice.rsa.pub#2"
 	h := 0
 	add := func(calls []*repoCall, class, note string) error {
 		c, err := w.caseOf(h, calls, class, note)
@@ -292,6 +301,10 @@ func reposStage(dir string, seed uint64, tier string) error {
 		{"everything trusted", []*repoCall{{Repos: []int{0, 1, 5, 6}, Keys: []string{A, B}}}},
 		{"no keys configured", []*repoCall{{Repos: []int{0}}}},
 		{"verification off", []*repoCall{{Repos: []int{0, 2, 4, 7}, Ignore: true}}},
+		// the verification context is the key MATERIAL, not the key file names (seeded change C04-4)
+		{"verified under alice's key, then requested with another key stored under alice's file name (local)", []*repoCall{{Repos: []int{0}, Keys: []string{A}}, {Repos: []int{0}, Keys: []string{A2}}, {Repos: []int{0}, Keys: []string{A}}}},
+		{"same over HTTP with an ETag, and the other way round", []*repoCall{{Repos: []int{5}, Keys: []string{A, B}}, {Repos: []int{5}, Keys: []string{A2, B}}, {Repos: []int{9}, Keys: []string{A2}}, {Repos: []int{9}, Keys: []string{A}}}},
+		{"rejected under the other key first, then accepted under the right one", []*repoCall{{Repos: []int{8}, Keys: []string{A}}, {Repos: []int{8}, Keys: []string{A2}}, {Repos: []int{0, 8}, Keys: []string{A2}}}},
 	}
 	for _, c := range corpus {
 		for rep := 0; rep < 3; rep++ { // goroutine order varies between repetitions
@@ -315,14 +328,18 @@ func reposStage(dir string, seed uint64, tier string) error {
 		nc := 1 + r.Intn(5)
 		for j := 0; j < nc; j++ {
 			c := &repoCall{}
-			perm := []int{0, 1, 2, 3, 4, 5, 6, 7}
+			perm := []int{0, 1, 2, 3, 4, 5, 6, 7, 8, 9}
 			for k := len(perm) - 1; k > 0; k-- {
 				l := r.Intn(k + 1)
 				perm[k], perm[l] = perm[l], perm[k]
 			}
 			c.Repos = perm[:1+r.Intn(3)]
 			if r.Chance(2, 3) {
-				c.Keys = append(c.Keys, A)
+				if r.Chance(1, 3) {
+					c.Keys = append(c.Keys, A2)
+				} else {
+					c.Keys = append(c.Keys, A)
+				}
 			}
 			if r.Chance(1, 2) {
 				c.Keys = append(c.Keys, B)
@@ -334,7 +351,7 @@ func reposStage(dir string, seed uint64, tier string) error {
 				}
 			}
 			if r.Chance(1, 10) { // an exemption for a repository that is not part of the call
-				c.Exempt = append(c.Exempt, perm[7])
+				c.Exempt = append(c.Exempt, perm[9])
 			}
 			calls = append(calls, c)
 		}
